@@ -26,6 +26,8 @@ pub fn adjust(cfg: &mut SwarmCfg, tier: &str, r: &mut Prng) {
             cfg.faults = sv(&["N-FLIP", "N-TRUNC", "N-SPLICE", "N-DUP", "N-REORD", "N-RACE", "N-STALE"]);
             setw(cfg, "corrupt", 40);
             setw(cfg, "byz", 8);
+            setw(cfg, "forge", 6);
+            cfg.faults.push("B-FORGE".into());
             cfg.faults.push("B-MOD".into());
             setw(cfg, "stale_commit", 3);
             setw(cfg, "send_app", 14);
@@ -39,6 +41,8 @@ pub fn adjust(cfg: &mut SwarmCfg, tier: &str, r: &mut Prng) {
             ]);
             setw(cfg, "corrupt", 30);
             setw(cfg, "byz", 8);
+            setw(cfg, "forge", 6);
+            cfg.faults.push("B-FORGE".into());
             cfg.faults.push("B-MOD".into());
             setw(cfg, "stale_commit", 6);
             setw(cfg, "send_app", 14);
@@ -58,7 +62,7 @@ pub fn adjust(cfg: &mut SwarmCfg, tier: &str, r: &mut Prng) {
             }
         }
         "C02" => {
-            cfg.oracles = sv(&["agreement", "recipients", "removed-cannot-follow", "record-crypto"]);
+            cfg.oracles = sv(&["agreement", "recipients", "removed-cannot-follow", "record-crypto", "path-required"]);
             cfg.faults = sv(&["N-REORD", "N-RACE", "N-STALE", "N-DUP"]);
             setw(cfg, "commit", 16);
             setw(cfg, "propose", 10);
@@ -245,6 +249,20 @@ pub fn adjust(cfg: &mut SwarmCfg, tier: &str, r: &mut Prng) {
                 setw(cfg, "observe", 0);
             }
         }
+        "C10" => {
+            cfg.oracles = sv(&["agreement", "proposal-agreement", "state-unchanged", "path-required"]);
+            cfg.faults = sv(&["B-FORGE", "N-DROP", "N-REORD", "N-RACE", "A-ID-REJECT", "missing-proposal"]);
+            cfg.encrypt_handshake = false;
+            cfg.knobs.push(("psk".into(), 1));
+            cfg.knobs.push(("banned".into(), 1));
+            cfg.knobs.push(("templates".into(), 1));
+            cfg.n_parties = cfg.n_parties.clamp(4, 8);
+            setw(cfg, "commit", 18);
+            setw(cfg, "propose", 18);
+            setw(cfg, "forge", 10);
+            setw(cfg, "deliver", 14);
+            setw(cfg, "crash", 0);
+        }
         "C06" => {
             cfg.oracles = sv(&["agreement", "restore"]);
             cfg.faults = sv(&["P-CRASH", "N-REORD", "N-DUP", "N-RACE", "N-STALE", "crash-with-pending"]);
@@ -304,6 +322,9 @@ pub fn extra_kinds(w: &World, kinds: &mut Vec<(&'static str, u32)>) {
     }
     if w.cfg.weight("byz") > 0 && w.live_members(g).len() >= 2 {
         kinds.push(("byz", w.cfg.weight("byz")));
+    }
+    if w.cfg.weight("forge") > 0 && w.live_members(g).len() >= 2 {
+        kinds.push(("forge", w.cfg.weight("forge")));
     }
     if w.cfg.weight("sflip") > 0 && !w.live_members(g).is_empty() {
         kinds.push(("sflip", w.cfg.weight("sflip")));
@@ -426,6 +447,16 @@ pub fn extra_action(w: &mut World, kind: &str) -> Option<Action> {
                 g,
                 msg: target,
                 m,
+            })
+        }
+        "forge" => {
+            let live = w.live_members(g);
+            let p = *w.prng.pick(&live);
+            Some(Action::Special {
+                kind: "forge".into(),
+                a: p as u64,
+                b: w.prng.below(8),
+                c: w.prng.below(8),
             })
         }
         "sflip" => {
@@ -558,6 +589,17 @@ pub fn adjust_commit(w: &mut World, _p: usize, _g: usize, spec: &mut CommitSpec)
     if w.cfg.knob("no-gce").is_some() {
         spec.gce = None;
     }
+    if w.cfg.knob("banned").is_some() {
+        let banned = w.parties.len() - 1;
+        spec.adds.retain(|q| *q != banned);
+    }
+    if w.cfg.knob("templates").is_some() && w.prng.chance(1, 5) {
+        // (two by-value PSK proposals for the same external id get different nonces, hence different
+        // PreSharedKeyIDs: that is valid, so it is not a template; the forger covers the identical-id case)
+        let t = *w.prng.pick(&[1u8, 2, 4, 5, 8, 9]);
+        let q = if t == 8 { w.parties.len() - 1 } else { w.prng.usize_below(w.parties.len()) };
+        spec.templates.push((t, q));
+    }
     if w.cfg.knob("grow").is_some() {
         let n = w.parties.len();
         let latest = w.groups[_g].log.len() as u64;
@@ -630,6 +672,10 @@ pub fn prop_spec_override(
     if w.cfg.knob("no-gce").is_some() && _opts.len() > 3 {
         _opts[3] = 0;
     }
+    if w.cfg.knob("templates").is_some() && w.prng.chance(1, 6) {
+        let t = *w.prng.pick(&[8u8, 4]);
+        return Some(PropSpec::Template { t, q: w.parties.len() - 1 });
+    }
     if w.cfg.knob("psk") == Some(2) && w.prng.chance(1, 3) {
         return Some(if w.prng.chance(1, 2) {
             PropSpec::ExtPsk {
@@ -672,6 +718,14 @@ pub fn setup(w: &mut World) -> VResult<()> {
             for p in 0..w.parties.len() {
                 w.parties[p].pskstore.put(&[b'k', id], &value);
             }
+        }
+    }
+    if w.cfg.knob("banned").is_some() {
+        // the application's identity provider (the same policy for everybody) rejects the last party's credential
+        let banned = w.parties.len() - 1;
+        let name = w.parties[banned].name.clone();
+        for p in 0..w.parties.len() {
+            w.parties[p].identity.ctl.lock().unwrap().reject.insert(name.clone());
         }
     }
     if w.cfg.knob("ext-sender").is_some() {
